@@ -42,6 +42,10 @@ def normalise(fmt, data: bytes):
             raise ValueError(f"not XML: {e}")
         if "date" in root.attrib:
             root.attrib["date"] = "X"
+        for tags in root.iter("scenarioTags"):
+            # the tags are a SET: the order in which the writer emits them is the set's iteration order, which a deep
+            # copy of the writer may legitimately change (see DESIGN 10.3)
+            tags[:] = sorted(tags, key=lambda el: el.tag)
         return etree.tostring(root)
     msg = commonroad_pb2.CommonRoad()
     try:
@@ -209,12 +213,18 @@ class Run(RunBase):
             # their elements in iteration order, which may legitimately iterate in another order afterwards; the
             # XML writer emits sets in iteration order, so the tag order of a deep-copied writer can differ from a
             # fresh one's under some hash seeds without anything being wrong.  Found by the determinism self-test.)
-            clone = copy.copy(rec["w"])
+            how = "copy"
+            if op["how"] == "deepcopy" and rec["args"]["fmt"] == "xml":
+                # XML only: the comparison is insensitive to the order of the scenario tags there (normalise)
+                clone = copy.deepcopy(rec["w"], {id(scn): scn, id(pps): pps})
+                how = "deepcopy"
+            else:
+                clone = copy.copy(rec["w"])
         except Exception as e:  # noqa   whether writers can be copied at all is not C15's business
             self.probe("clone-raised:" + type(e).__name__)
             return {"raised": type(e).__name__}
         rec["w"] = clone
-        self.probe("writer-cloned:" + op["how"])
+        self.probe("writer-cloned:" + how)
         return "ok"
 
     def _op_clock(self, op):
@@ -493,7 +503,7 @@ def _writer_user(rng, run, name, cfg):
                   "validate": rng.chance(0.3) if cfg["buggify_validate"] else False,
                   "readback": rng.chance(cfg["p_readback"]), "path_form": rng.choice(["str", "str", "Path"])}
             if rng.chance(0.12):
-                yield {"op": "clone", "w": w, "how": "copy"}
+                yield {"op": "clone", "w": w, "how": rng.choice(["copy", "deepcopy"])}
             r = rng.random()
             if "F-nodir" in cfg["faults"] and r < cfg["p_fault"]:
                 op["fault"] = {"nodir": True}
@@ -572,7 +582,7 @@ class C15(Property):
                        "midnight-between-two-writes-of-one-writer", "success-after-failed-write",
                        "both-write-methods-on-one-writer", "write-failed-as-twin", "identical-writers-compared",
                        "readback-ok", "clock-crossed-midnight", "clock-went-backwards", "write-after-scenario-changed", "target-is-a-directory", "asked-user-answer-y", "asked-user-answer-n",
-                       "reader-object-reused-after-rewrite", "writer-cloned:copy",
+                       "reader-object-reused-after-rewrite", "writer-cloned:copy", "writer-cloned:deepcopy",
                        "writer-constructed-with-the-default-precision"]
     assumptions = [
         "the pristine twin is the library itself (fresh writer, fork-isolated): a defect that a fresh writer shows "
